@@ -50,6 +50,17 @@ FUNCTIONS = [
     ('bumble/gatt_server.py', 'Server', 'on_att_write_request'),
     ('bumble/gatt_server.py', 'Server', 'on_att_write_command'),
     ('bumble/gatt_server.py', 'Server', 'on_att_handle_value_confirmation'),
+    # where a bearer's ATT_MTU comes from: the L2CAP accept path of an enhanced bearer, the channel
+    # constructor and response handlers, and the update hooks of both bearer kinds
+    ('bumble/l2cap.py', 'LeCreditBasedChannel', '__init__'),
+    ('bumble/l2cap.py', 'LeCreditBasedChannel', 'on_connection_response'),
+    ('bumble/l2cap.py', 'LeCreditBasedChannel', 'on_enhanced_connection_response'),
+    ('bumble/l2cap.py', 'LeCreditBasedChannel', 'on_att_mtu_update'),
+    ('bumble/l2cap.py', 'LeCreditBasedChannel', 'write'),
+    ('bumble/l2cap.py', 'LeCreditBasedChannel', 'process_output'),
+    ('bumble/l2cap.py', 'ChannelManager', 'on_l2cap_le_credit_based_connection_request'),
+    ('bumble/l2cap.py', 'ChannelManager', 'on_l2cap_credit_based_connection_request'),
+    ('bumble/device.py', 'Connection', 'on_att_mtu_update'),
     ('bumble/att.py', 'ATT_PDU', 'from_bytes'),
     ('bumble/att.py', 'Attribute', 'read_value'),
     ('bumble/att.py', 'Attribute', 'write_value'),
@@ -143,7 +154,43 @@ def extract(repo: str) -> list[tuple[str, str, list[str]]]:
             if any(ord(ch) > 126 or ord(ch) < 32 for ch in l):
                 raise TranslateError(f'{key_of(cls, fn)}: non-printable / non-ASCII character in {l!r}')
         out.append((key_of(cls, fn), ident_of(cls, fn), lines))
+    out.append(('att_mtu sites', 'att_mtu_sites', att_mtu_sites(repo)))
     return out
+
+
+MTU_FILES = ['bumble/l2cap.py', 'bumble/device.py', 'bumble/gatt_server.py', 'bumble/att.py']
+
+
+def att_mtu_sites(repo: str) -> list[str]:
+    """every statement, in the files of the server side, that assigns an attribute named `att_mtu` or calls
+    `on_att_mtu_update`, with the function it is in: moving or adding such a computation breaks the obligation"""
+    lines = []
+    for path in MTU_FILES:
+        with open(os.path.join(repo, path)) as f:
+            tree = ast.parse(f.read())
+
+        def walk(node, qual):
+            for child in ast.iter_child_nodes(node):
+                q = qual
+                if isinstance(child, (ast.ClassDef, ast.FunctionDef, ast.AsyncFunctionDef)):
+                    q = (qual + '.' if qual else '') + child.name
+                if isinstance(child, (ast.Assign, ast.AugAssign, ast.AnnAssign)):
+                    targets = child.targets if isinstance(child, ast.Assign) else [child.target]
+                    flat = []
+                    for t in targets:
+                        flat += list(ast.walk(t))
+                    if any(isinstance(t, ast.Attribute) and t.attr == 'att_mtu' for t in flat):
+                        lines.append(f'{path}: {qual}: {ast.unparse(child)}')
+                if isinstance(child, ast.Call) and isinstance(child.func, ast.Attribute) \
+                        and child.func.attr == 'on_att_mtu_update':
+                    lines.append(f'{path}: {qual}: {ast.unparse(child)}')
+                walk(child, q)
+
+        walk(tree, '')
+    for l in lines:
+        if any(ord(ch) > 126 or ord(ch) < 32 for ch in l):
+            raise TranslateError(f'att_mtu sites: non-printable character in {l!r}')
+    return lines
 
 
 def coq_string(s: str) -> str:
